@@ -325,8 +325,10 @@ class _ModelBackend:
     """A backend whose solve() returns the first assignment of `order` that satisfies every constraint it was
     given (constraints are the DSL's own trees, denoted with the reference semantics of C01)."""
 
-    def __init__(self, ew: EM.ExprWorld, order: List[Tuple[Any, ...]], native: Optional[Tuple[Any, List[Any]]] = None):
+    def __init__(self, ew: EM.ExprWorld, order: List[Tuple[Any, ...]], native: Optional[Tuple[Any, List[Any]]] = None,
+                 clobber: bool = False):
         self.ew, self.order, self.native = ew, order, native
+        self.clobber = clobber  # on UNSAT the text backends reset every sol to None, z3 leaves the last model: both are modelled
         self.vars: List[Any] = []
         self.cons: List[Any] = []
         self.solves = 0
@@ -368,6 +370,9 @@ class _ModelBackend:
                                 f"{self.history[-1][0]} again")
             raise Undecided("refinement not finished within the round budget")
         if found is None:
+            if self.clobber:
+                for v in self.vars:
+                    v.attrs["sol"] = None
             return False
         for v, x in zip(self.vars, found):
             v.attrs["sol"] = _fresh(x)
@@ -393,7 +398,7 @@ def _ref_world(repo: Repo) -> Tuple[EM.ExprWorld, ClassWorld]:
 
 
 def _run_solve(ew: EM.ExprWorld, cw: ClassWorld, kinds: List[str], keys: List[bool], models: List[Tuple[Any, ...]],
-               order: List[Tuple[Any, ...]], native: Optional[Tuple[Any, List[Any]]] = None):
+               order: List[Tuple[Any, ...]], native: Optional[Tuple[Any, List[Any]]] = None, clobber: bool = False):
     vs = []
     for i, k in enumerate(kinds):
         v = ew.leaf(k, f"v{i}")
@@ -404,7 +409,7 @@ def _run_solve(ew: EM.ExprWorld, cw: ClassWorld, kinds: List[str], keys: List[bo
     def lit(v: Obj, x: Any) -> Obj:
         return ew.term("BoolExpr", Tag("Op.IFF" if isinstance(x, bool) else "Op.EQ"), [v, x])
     prog = ew.term("BoolExpr", Tag("Op.OR"), [ew.term("BoolExpr", Tag("Op.AND"), [lit(v, x) for v, x in zip(vs, m)]) for m in models])
-    be = _ModelBackend(ew, order, native)
+    be = _ModelBackend(ew, order, native, clobber)
     selfo = solver_self(cw, variables=vs, is_answer_key=list(keys), constraints=[prog], name="self")
     cw.ev.steps = 0
     ew.ev.steps = 0
@@ -446,38 +451,39 @@ def check_semantics(repo: Repo, rep: Report, tier: str = "quick") -> bool:
             doms = [next(d for kk, d in VAR_KINDS if kk == k) for k in kinds]
             rest = [u for u in itertools.product(*doms) if u not in models]
             # non-models come first in the backend's enumeration: a dropped constraint shows as a wrong model
-            r, vs, be, selfo = _run_solve(ew, cw, kinds, keys, models, rest[:2] + list(models) + rest[2:])
-            n += 1
-            want_sat = bool(models)
-            bad = None
-            if r is not want_sat:
-                bad = f"returns {r!r}"
-            elif want_sat:
-                for i, (v, k) in enumerate(zip(vs, keys)):
-                    if not k:
-                        continue
-                    vals = {m[i] for m in models}
-                    want = next(iter(vals)) if len(vals) == 1 else None
-                    got = v.attrs.get("sol")
-                    if not ((want is None and got is None) or (want is not None and _typed_eq(got, want))):
-                        bad = f"key variable #{i} gets sol={got!r}, expected {want!r}"
-                        break
-            if be.news != 1:
-                bad = bad or f"{be.news} backend objects were created for one solve()"
-            if len(be.vars) != len(vs) or any(a is not b for a, b in zip(be.vars, vs)):
-                bad = bad or "the backend is not built over exactly self.variables"
-            if bad:
-                rep.finding("REF-E", SOLVER, "Solver.solve", "fallback route result",
-                            f"with variables {kinds}, answer keys {keys} and the satisfying assignments {models} "
-                            f"(enumerated in that order by a backend without native deduction) solve() {bad}", fn.lineno)
-                return False
+            for clobber in (False, True):
+              r, vs, be, selfo = _run_solve(ew, cw, kinds, keys, models, rest[:2] + list(models) + rest[2:], clobber=clobber)
+              n += 1
+              want_sat = bool(models)
+              bad = None
+              if r is not want_sat:
+                  bad = f"returns {r!r}"
+              elif want_sat:
+                  for i, (v, k) in enumerate(zip(vs, keys)):
+                      if not k:
+                          continue
+                      vals = {m[i] for m in models}
+                      want = next(iter(vals)) if len(vals) == 1 else None
+                      got = v.attrs.get("sol")
+                      if not ((want is None and got is None) or (want is not None and _typed_eq(got, want))):
+                          bad = f"key variable #{i} gets sol={got!r}, expected {want!r}"
+                          break
+              if be.news != 1:
+                  bad = bad or f"{be.news} backend objects were created for one solve()"
+              if len(be.vars) != len(vs) or any(a is not b for a, b in zip(be.vars, vs)):
+                  bad = bad or "the backend is not built over exactly self.variables"
+              if bad:
+                  rep.finding("REF-E", SOLVER, "Solver.solve", "fallback route result",
+                              f"with variables {kinds}, answer keys {keys} and the satisfying assignments {models} "
+                              f"(enumerated in that order by a backend without native deduction{' that resets every sol on UNSAT' if clobber else ''}) solve() {bad}", fn.lineno)
+                  return False
         # refinement length: a chain of n keys needs n demotion rounds; n is taken from the integer constants of
         # the code reachable from solve() so that a literal iteration cap is witnessed
         consts = sorted({c for c in _int_constants(repo) if 2 <= c <= 400})
         for nkeys in sorted({5} | {c + 1 for c in consts}):
             kinds = ["b"] * nkeys
             models = [tuple([j < k for j in range(nkeys)]) for k in range(nkeys + 1)]
-            r, vs, be, selfo = _run_solve(ew, cw, kinds, [True] * nkeys, models, models)
+            r, vs, be, selfo = _run_solve(ew, cw, kinds, [True] * nkeys, models, models, clobber=True)
             n += 1
             got = [v.attrs.get("sol") for v in vs]
             if r is not True or any(g is not None for g in got):
